@@ -172,6 +172,9 @@ func (e *Encoder) niObligations(fr *frame, ct *Contract, rv *SVal, stOut *State,
 		// a fresh symbol whose defining assumption mentions the entry state must not be shared either
 		memo := map[*Term]bool{}
 		for _, a := range e.assumptions {
+			if e.tiFacts[a] {
+				continue // a Go type invariant: true of every state, cannot couple the two runs
+			}
 			if c.Subst(a, m) != a && mentionsFreshAfter(a, -1, memo) {
 				indep = false
 				if debugTiming {
